@@ -194,6 +194,17 @@ fn derive_pk(w: &mut World, op: &Value) -> R<Value> {
             });
         }
         w.put(gs(op, "pk")?, pkb);
+    } else {
+        // a private key in [1, n-2] (GB/T 32918.1, 6.1) handed over as 32 bytes is a valid key: the
+        // validating constructor must take it (C19: "every private key from its bytes"), and must
+        // never crash on any other
+        let n = n();
+        let valid = d.len() == 32 && !dn.is_zero() && dn <= &n - 2u32;
+        w.check_class(&["C20"], "sm2.private_key_new", &class, if valid { "d in [1,n-2]" } else { "d outside [1,n-2]" }, case, "");
+        if valid {
+            let key = json!({"entry":"sm2.private_key_new","class":"d in [1,n-2]","outcome":class.as_str()});
+            w.check("C19", "O19.1-valid-private-key-accepted", false, case, key, || format!("Sm2PrivateKey::new refuses the valid private key d={} ({})", hex::encode(&d), class.as_str()));
+        }
     }
     Ok(json!({"class": class.as_str()}))
 }
